@@ -106,7 +106,11 @@ def run_group(group, repo="/repo", extra_args=None, keep=False, seed=None):
     open(out, "w").write(text)
     res["meta"] = meta
     cmd = ["verus", out, "--error-format=json", "--output-json", "--time-expanded",
-           "--multiple-errors", "50", "--triggers-mode", "silent", "--num-threads", "8"]
+           "--multiple-errors", "50", "--triggers-mode", "silent", "--num-threads", "8",
+           # default per-function resource limit 60 (~6x the Verus default): every function of the
+           # unchanged tree stays below a third of it, so solver jitter cannot turn a pass into
+           # an UNDECIDED; functions with their own #[verifier::rlimit] keep theirs
+           "--rlimit", "60"]
     if seed is not None:
         cmd += ["--smt-option", "smt.random_seed=%d" % seed]
     if extra_args:
